@@ -80,6 +80,7 @@ fn main() {
         // isolated sub-cases: each module claims the names it knows, None = not mine
         let code = None
             .or_else(|| vh_codec::child(&name, &rest))
+            .or_else(|| vh_events::child(&name, &rest))
             .or_else(|| vh_view::child(&name, &rest))
             .or_else(|| vh_aspace::child(&name, &rest))
             .or_else(|| vh_chan::child(&name, &rest))
@@ -104,7 +105,9 @@ fn main() {
         || vh_client::dispatch(&args, &mut rep)
         || vh_aspace::dispatch(&args, &mut rep)
         || vh_locks::dispatch(&args, &mut rep)
-        || vh_view::dispatch(&args, &mut rep);
+        || vh_view::dispatch(&args, &mut rep)
+        || vh_text::dispatch(&args, &mut rep)
+        || vh_events::dispatch(&args, &mut rep);
     if !handled {
         eprintln!("unknown property {}", args.prop);
         std::process::exit(2);
